@@ -166,6 +166,10 @@ def build_experiment(case, limit):
     for a, b in proto.edges():
         proto.edges[a, b]['w'] = a + b
     gen = ep.FixedNetwork(proto, limit=limit)
+    if case['family'] == 'generated':
+        # a random-network ensemble as the experiment's generator: every run must work on a network generated from
+        # THIS run's parameters only (the prototype clauses do not apply: proto stays an unused dummy)
+        gen = {'ER': ep.ERNetwork, 'BA': ep.BANetwork, 'PLC': ep.PLCNetwork}[case['generator']](limit=limit)
     dcls = ep.StochasticDynamics if case['dynamics'] == 'stochastic' else ep.SynchronousDynamics
     dyn = dcls(top, gen)
 
@@ -264,6 +268,11 @@ def one_run(dyn, ctl, leaves, proto, gen, case, j, run):
             raise kscript.Budget('run exceeds the harness budget')
     dyn.eventFired = tap
     install(Oracle(seed=case['seed'] + j))
+    if case['family'] == 'generated':
+        import random as _random
+        import numpy as _numpy
+        _random.seed(case['seed'] + j)           # networkx's and numpy's own global sources, which the ensembles draw from
+        _numpy.random.seed((case['seed'] + j) % (1 << 32))
     raised = None
     rc = None
     try:
@@ -289,6 +298,8 @@ def one_run(dyn, ctl, leaves, proto, gen, case, j, run):
 
 class H(Harness):
     ID = 'C10'
+    ANCHOR_FILES = ['epydemic/networkexperiment.py', 'epydemic/networkdynamics.py', 'epydemic/process.py', 'epydemic/compartmentedmodel.py',
+                    'epydemic/monitor.py', 'epydemic/standard_generators.py', 'epydemic/generator.py', 'epydemic/percolate.py']
     TIE_IMPORT = 'From EpyV Require Import Model.Kernel Model.Lifecycle Tie.C10.'
     CHECK_FN = 'EpyV.Tie.C10.check_case'
     QUICK_N = 300
@@ -329,6 +340,24 @@ class H(Harness):
                     params['epydemic.percolate.T'] = rnd.choice([0.25, 0.5, 0.75, 1.0])
                 else:
                     params.update(compart.params_for(ty, pv))
+            if case['family'] == 'generated':
+                import epydemic as ep
+                N = rnd.choice([6, 8, 10, 12])
+                if case['generator'] == 'ER':
+                    params[ep.ERNetwork.N] = N
+                    if rnd.random() < 0.5:
+                        params[ep.ERNetwork.PHI] = rnd.choice([0.125, 0.25, 0.5, 1.0])
+                    else:
+                        params[ep.ERNetwork.KMEAN] = rnd.choice([1, 2, 3])
+                elif case['generator'] == 'BA':
+                    params[ep.BANetwork.N] = N
+                    params[ep.BANetwork.M] = rnd.choice([1, 2, 3])
+                else:
+                    params[ep.PLCNetwork.N] = N
+                    params[ep.PLCNetwork.EXPONENT] = rnd.choice([2.0, 2.5, 3.0])
+                    params[ep.PLCNetwork.CUTOFF] = rnd.choice([3, 5, 8])
+                run['params'] = params
+                return run
             # parameter points whose KEY SETS differ from run to run (a network family given now by one, now by another parameter)
             if rnd.random() < 0.5:
                 params[rnd.choice(['phi', 'kmean', 'N', 'MperNode'])] = rnd.choice([0.125, 2, 5, 0.5])
@@ -337,7 +366,7 @@ class H(Harness):
 
     def gen_case(self, rnd, family=None):
         dynamics = rnd.choice(['stochastic', 'synchronous'])
-        family = family or rnd.choices(['script', 'shipped'], [60, 40])[0]
+        family = family or rnd.choices(['script', 'shipped', 'generated'], [55, 30, 15])[0]
         case = {'family': family, 'dynamics': dynamics, 'graph': compart.gen_graph(rnd, lo=2, hi=6), 'seed': rnd.randrange(1 << 30),
                 'limit': rnd.choice([None, None, None, 0, 1, 2, 3]), 'maxtime': rnd.choice([1.5, 2.0, 3.0])}
         if family == 'script':
@@ -345,6 +374,10 @@ class H(Harness):
             case['tables'] = [kcommon.gen_table(rnd, dynamics, allow=['post', 'post', 'unpost', 'query', 'laddself', 'ldiscardself'],
                                                 nprocs=case['nprocs'], maxtime=case['maxtime'], rep_in_progs=True)
                               for _ in range(rnd.choice([2, 3]))]
+        elif family == 'generated':
+            case['generator'] = rnd.choice(['ER', 'ER', 'BA', 'PLC'])
+            case['procs'] = (['monitor'] if rnd.random() < 0.5 else []) + [rnd.choice(['SIR', 'SIS'])]
+            case['maxtime'] = 1.5
         else:
             procs = []
             if rnd.random() < 0.3:
@@ -442,6 +475,8 @@ class H(Harness):
 
     # ------------------------------------------------------------- Coq
     def to_coq(self, case, obs):
+        if case['family'] == 'generated':
+            return None                 # ensembles of networkx: the differential against a fresh object (D) only
         script = case['family'] == 'script'
         tables = L.lst([kcommon.c_table(t) for t in case['tables']]) if script else '[]'
         g = compart.make_graph(case['graph'])
